@@ -250,6 +250,28 @@ func init() {
 			}
 			return us
 		}})
+	register(&PropCheck{ID: "C15", Level: "model_checking",
+		Rule:        "programs with wait-optional / soft-optional / one-of / or-disabled tags in step inputs, wait_for and outputs (nested in maps and lists, several per object) x source outcomes (produced, error output, crash, deployment failure, disabled, never finishing) x all schedules and map orders within the deviation bound; stage inputs and results are re-derived with the tag semantics over the ledger and compared with the reference interpreter",
+		Assumptions: commonAssumptions,
+		Budget:      budget(170*time.Second, 28*time.Minute),
+		Units: func(tier string) []*Unit {
+			var us []*Unit
+			alts := append(append([]stepAlt{}, altsBasic[:4]...), stepAlt{"hang", env.StepScript{Run: env.RunHangCancel}}, stepAlt{"slow", env.StepScript{RunMS: 25}})
+			for _, p := range tagPrograms() {
+				for _, in := range tagInputs(p) {
+					for _, sc := range vectors(p, alts, tierBound(tier, 40, 220)) {
+						s := &Scenario{Class: p.Name, Prog: p, Script: sc, Input: in}
+						s.Name = p.Name + "/" + vecName(sc) + "/" + canonStr(in)
+						s.Ref = evalProgram(p, sc, in)
+						if s.Ref.ResultID == "" && !s.Ref.ResultErr {
+							continue
+						}
+						us = append(us, scenarioUnit(s, exploreOpts{bound: tierBound(tier, 1, 2), menu: menuTSME, cancelMS: -1}, oracleC02, oracleC03, oracleC04, oracleC01))
+					}
+				}
+			}
+			return us
+		}})
 	register(&PropCheck{ID: "C07", Level: "model_checking",
 		Rule:        "no goroutine panics and no fatal runtime misuse on any explored schedule; unevaluable expressions end the run with an error",
 		Assumptions: commonAssumptions,
